@@ -7,7 +7,7 @@ CONSTANTS
   ClearCountsRows = TRUE
   MCModes <- AllModes
   MCWidths <- W1
-  MCGaps <- Gaps2
+  MCGaps <- GapsOffBig
   MCFormats <- FmtNormal
   MCMax <- Max2
   Ticks <- TicksQ
